@@ -511,7 +511,8 @@ func (sf IntLatLngSnapper) MinEdgeVertexSeparation() s1.Angle {
 // SnapPoint returns a candidate snap site for the given point.
 func (sf IntLatLngSnapper) SnapPoint(point Point) Point {
 	input := LatLngFromPoint(point)
-	lat := s1.Angle(roundAngle(input.Lat * sf.from))
-	lng := s1.Angle(roundAngle(input.Lng * sf.from))
-	return PointFromLatLng(LatLng{lat * sf.to, lng * sf.to})
+	// Snap in degrees (the grid is 10^-exponent degrees), not radians.
+	lat := s1.Angle(roundAngle(s1.Angle(input.Lat.Degrees()) * sf.from))
+	lng := s1.Angle(roundAngle(s1.Angle(input.Lng.Degrees()) * sf.from))
+	return PointFromLatLng(LatLngFromDegrees(float64(lat*sf.to), float64(lng*sf.to)))
 }
